@@ -501,10 +501,10 @@ def dist_c13(cases, results):
 
 # ============================================================================== c11x
 # the rest of dfir_pipes::pull: stream adaptors, either, consuming futures
-XCOMBS = ["stream", "stream_compat", "either_l", "either_r", "stream_ready", "flat_map_stream",
+XCOMBS = ["iter", "once", "empty", "stream", "stream_compat", "either_l", "either_r", "stream_ready", "flat_map_stream",
           "flatten_stream", "filter_map_async", "collect", "for_each", "next", "accumulate",
           "send_push", "send_sink"]
-XPULLS = {"stream", "stream_compat", "either_l", "either_r", "stream_ready", "flat_map_stream",
+XPULLS = {"iter", "once", "empty", "stream", "stream_compat", "either_l", "either_r", "stream_ready", "flat_map_stream",
           "flatten_stream", "filter_map_async"}
 ST_VOCAB = {"s_rep": "SRep", "s_pp": "SPP", "s_empty": "SEmpty", "s_pend": "SPend", "s_endmid": "SEndMid"}
 FU_VOCAB = {"a_half": "AHalf", "a_now": "ANow", "a_none": "ANone", "a_slow": "ASlow"}
@@ -531,6 +531,8 @@ def g_src_kv(i):
 
 def g_xcase(c):
     comb, ins = c["comb"], c["ins"]
+    if comb in ("iter", "once", "empty"):
+        return "(XSource [%s])" % "; ".join("%d" % x for x in ins[0]["s"])
     if comb in ("stream", "stream_compat", "either_l"):
         return "(XRelay %s)" % g_src(ins[0])
     if comb == "either_r":
@@ -598,7 +600,10 @@ def rand_xcase(rng, comb=None):
     maxlen = rng.choice([5, 12])
     fused = rng.chance(2, 3)
     c = {"k": "c11x", "comb": comb, "extra": rng.range(1, 3)}
-    if comb == "flatten_stream":
+    if comb in ("iter", "once", "empty"):
+        n = 1 if comb == "once" else 0 if comb == "empty" else rng.range(0, 10)
+        c["ins"] = [{"s": [rng.below(12) for _ in range(n)], "lo": 0, "hi": 0}]
+    elif comb == "flatten_stream":
         s = []
         for _ in range(rng.range(0, 8)):
             if rng.chance(pend_num, 10):
@@ -633,7 +638,7 @@ def exhaustive_xcases():
     one = all_scripts(4, 2, [3, 1, 4, 6])
     j = 0
     for comb in XCOMBS:
-        if comb in ("flatten_stream", "accumulate"):
+        if comb in ("flatten_stream", "accumulate", "iter", "once", "empty"):
             continue
         for s in one:
             j += 1
